@@ -259,6 +259,9 @@ class Check:
         cov = dict(self.cov)
         cov["known_findings_hit"] = {kid: n for kid, (k, n) in self.known_hit.items()}
         cov["model_drift"] = self.drift
+        import collections
+        cov["violation_groups"] = dict(collections.Counter(
+            json.dumps(v["sig"], sort_keys=True)[:200] for v in self.violations).most_common(40))
         cov["repo_tree"] = repo_tree_hash()
         if not cov["samples"]:
             cov["samples"] = ["(no sample recorded)"]
@@ -317,3 +320,89 @@ def run_batch(jobs, wd, name="batch", par=14):
     res = list(read_ndjson(op))
     shutil.rmtree(os.path.join(wd, name + ".w"), ignore_errors=True)
     return res
+
+
+def run_case_programs(chk, cases, program, name, per=150, timeout_ms=30000, mod_dir="", extra_files=None):
+    """Compile+run `cases` in batches of `per`: program(list_of_cases) -> source text of one
+    executable that prints exactly one line per case.  A batch that is rejected / crashes / does
+    not exit 0 is split until the offending cases are isolated.
+    Returns a list of (line or None, why) per case."""
+    results = [None] * len(cases)
+    todo = [list(range(i, min(i + per, len(cases)))) for i in range(0, len(cases), per)]
+    rnd = 0
+    while todo:
+        jobs = []
+        for bi, idxs in enumerate(todo):
+            files = {"main.capy": program([cases[i] for i in idxs])}
+            if extra_files:
+                files.update(extra_files)
+            jobs.append({"id": "b%d" % bi, "files": files, "run": True, "timeout_ms": timeout_ms,
+                         "mod_dir": mod_dir})
+        res = run_batch(jobs, chk.wd, "%s_r%d" % (name, rnd))
+        nxt = []
+        for idxs, r in zip(todo, res):
+            ok = r.get("run") and r["run"].get("status") == 0 and not r["has_errors"] \
+                and not r.get("panic")
+            lines = r["run"]["stdout"].split("\n") if r.get("run") else []
+            if ok and len(lines) >= len(idxs):
+                for n, i in enumerate(idxs):
+                    results[i] = (lines[n], "")
+            elif len(idxs) == 1:
+                if r["has_errors"]:
+                    why = "rejected: " + ",".join(sorted({d["kind"] for d in r["diags"] if d["sev"] == "error"}))
+                elif r.get("panic"):
+                    why = "panic: %s @ %s" % (r["panic"].get("msg", "")[:80], r["panic"].get("loc", ""))
+                elif r.get("cranelift_err"):
+                    why = "cranelift: " + r["cranelift_err"][:80]
+                elif r.get("crash"):
+                    why = "crash: " + r["crash"]
+                else:
+                    why = "run: %s" % json.dumps(r.get("run"))[:200]
+                results[idxs[0]] = (None, why)
+            else:
+                h = max(1, len(idxs) // 4)
+                nxt += [idxs[j:j + h] for j in range(0, len(idxs), h)]
+        todo = nxt
+        rnd += 1
+    return results
+
+
+def tlc_validate_sharded(chk, module, cfg, recs, name, shards=6, timeout=3000, env=None):
+    """Validate trace records with <module>.tla in `shards` parallel TLC runs (one worker each).
+    Returns the list of (global index, BAD payload)."""
+    import concurrent.futures
+    n = len(recs)
+    if n == 0:
+        return []
+    shards = max(1, min(shards, (n + 199) // 200))
+    size = (n + shards - 1) // shards
+    parts = []
+    for s in range(shards):
+        lo = s * size
+        hi = min(n, lo + size)
+        if lo >= hi:
+            break
+        p = os.path.join(chk.wd, "%s.%d.ndjson" % (name, s))
+        write_ndjson(p, recs[lo:hi])
+        parts.append((s, lo, p))
+
+    def one(part):
+        s, lo, p = part
+        e = {"TRACE": p}
+        if env:
+            e.update(env)
+        return run_tlc(module, cfg, chk.wd, workers=1, timeout=timeout, env=e,
+                       out_name="%s.%d.tlc.out" % (name, s))
+    with concurrent.futures.ThreadPoolExecutor(max_workers=len(parts)) as ex:
+        outs = list(ex.map(one, parts))
+    bad = []
+    for (s, lo, p), res in zip(parts, outs):
+        chk.require_tlc_ok("%s.tla on %s shard %d" % (module, name, s), res)
+        seen = set()
+        for b in tlc_lines(res.out, "BAD"):
+            if b["idx"] in seen:
+                continue
+            seen.add(b["idx"])
+            bad.append((lo + b["idx"] - 1, b))
+    chk.cov["traces_validated_against_impl"] += n
+    return bad
